@@ -18,7 +18,7 @@ IDENTS = ["A", "B1", "X$", "ZZ", "K9", "Q", "YY$", "W2", "H", "J7", "C%", "V"]
 
 def gen_line(rng, kws, n):
     parts = []
-    for _ in range(rng.choice([1, 2, 3, 5, 8])):
+    for _ in range(rng.choice([1, 2, 3, 5, 8]) if rng.random() < 0.96 else rng.choice([40, 70, 120])):    # now and then a very long line (DATA, PRINT lists): records beyond 255 bytes
         r = rng.random()
         if r < 0.45:
             k = rng.choice(kws)
